@@ -23,7 +23,11 @@ def main():
         env = dict(os.environ, VERIF_REPO=repo)
         for pid in ids:
             t0 = time.time()
-            r = sh("cd %s && bin/check %s --tier quick" % (verif, pid), timeout=3600, env=env)
+            try:
+                r = sh("cd %s && bin/check %s --tier quick" % (verif, pid), timeout=2400, env=env)
+            except subprocess.TimeoutExpired:
+                print("%s rc=124 check did not finish within 40 min" % pid)
+                continue
             out = r.stdout.decode()
             lines = [l.replace(verif, "<scratch>") for l in out.splitlines() if l.startswith(("VIOLATION", "KNOWN-FINDING"))]
             print("%s rc=%d %.0fs %s" % (pid, r.returncode, time.time() - t0, " | ".join(l[:160] for l in lines)))
